@@ -496,12 +496,37 @@ BP('C17', 'rf4-c17-3', 'rf4-c17-3.diff',
 BP('C17', 'rf4-c17-4', 'rf4-c17-4.diff',
    'independent refactoring, second focused round (other functions of the property): mithril-aggregator/src/services/epoch_service.rs (producer of the SignedEntityConfig that the runner feeds to list_allowed_signed_entity_types / time_point_to_signed_entity): the inline construction of the epoch`s SignedEntityConfig in MithrilEpochS')
 
+BP('C04', 'rf5-c04-1', 'rf5-c04-1.diff',
+   'independent refactoring, last held-out round (aimed at the rules corrected in the round before; silent as delivered): CertificateMetadata::compute_hash now only creates the hasher, delegates to a new private CertificateMetadata::feed_hash(&self, &mut Sha256) and finalizes. The duplicated `timestamp_nanos_opt().unwrap_or_default(')
+BP('C04', 'rf5-c04-2', 'rf5-c04-2.diff',
+   'independent refactoring, last held-out round (aimed at the rules corrected in the round before; silent as delivered): Certificate::try_compute_hash is split into three private helpers taking the hasher by &mut: feed_chaining_and_content (previous_hash, epoch, metadata hash, protocol message hash, signed message, AVK json-hex; th')
+BP('C04', 'rf5-c04-3', 'rf5-c04-3.diff',
+   'independent refactoring, last held-out round (aimed at the rules corrected in the round before; silent as delivered): SignedEntityType::feed_hash no longer pushes each component to the hasher incrementally: a new private SignedEntityType::hash_bytes() -> Vec<u8> builds the complete preimage (optional 2 byte index prefix for Card')
+BP('C04', 'rf5-c04-4', 'rf5-c04-4.diff',
+   'independent refactoring, last held-out round (aimed at the rules corrected in the round before; silent as delivered): ProtocolParameters::compute_hash switches from incremental hashing to one-shot hashing: a new private hash_preimage() -> Vec<u8> concatenates k BE bytes, m BE bytes and the U8F24 fixed point phi_f BE bytes, and c')
+BP('C14', 'rf5-c14-1', 'rf5-c14-1.diff',
+   'independent refactoring, last held-out round (aimed at the rules corrected in the round before; silent as delivered): In MithrilCertifierService::create_certificate, the selection of the signers recorded in the certificate metadata (signers of the current epoch whose party id appears among the single signatures of the open messa')
+BP('C14', 'rf5-c14-2', 'rf5-c14-2.diff',
+   'independent refactoring, last held-out round (aimed at the rules corrected in the round before; silent as delivered): OpenMessage::get_signers_id rewritten from an iter().map(to_owned).collect() chain to an explicit for loop pushing party_id.clone() into a Vec pre-sized with with_capacity.')
+BP('C14', 'rf5-c14-3', 'rf5-c14-3.diff',
+   'independent refactoring, last held-out round (aimed at the rules corrected in the round before; silent as delivered): StakeDistributionParty::from_signers (mithril-common) rewritten from signers.into_iter().map(|s| s.into()).collect() to a for loop that builds each StakeDistributionParty with a struct literal (the From<SignerWit')
+BP('C14', 'rf5-c14-4', 'rf5-c14-4.diff',
+   'independent refactoring, last held-out round (aimed at the rules corrected in the round before; silent as delivered): In MithrilCertifierService::create_certificate, construction of the CertificateMetadata (protocol version, initiated_at from the open message, sealed_at = now, current protocol parameters, signer parties) is extr')
+BP('C15', 'rf5-c15-1', 'rf5-c15-1.diff',
+   'independent refactoring, last held-out round (aimed at the rules corrected in the round before; silent as delivered): MithrilSignedEntityService::create_artifact: the body of the spawned supervising task (spawn inner create_artifact_task, await it, release the SignedEntityTypeLock, map JoinError/context, log error) is extracted ')
+BP('C15', 'rf5-c15-2', 'rf5-c15-2.diff',
+   'independent refactoring, last held-out round (aimed at the rules corrected in the round before; silent as delivered): MithrilSignedEntityService::create_artifact: the `is_locked -> error, else lock` acquisition sequence is extracted into a new private method `acquire_signed_entity_type_lock(&self, &SignedEntityType) -> StdResult')
+BP('C15', 'rf5-c15-3', 'rf5-c15-3.diff',
+   'independent refactoring, last held-out round (aimed at the rules corrected in the round before; silent as delivered): SignedEntityTypeLock (internal/signed-entity/mithril-signed-entity-lock): `lock` and `release` now delegate to one new private helper `set_locked(entity_type, locked: bool)` that takes the write guard, converts t')
+BP('C15', 'rf5-c15-4', 'rf5-c15-4.diff',
+   'independent refactoring, last held-out round (aimed at the rules corrected in the round before; silent as delivered): MithrilSignedEntityService::create_artifact_task is split: the retry loop moves to a new private `compute_artifact_with_retry(&SignedEntityType, &Certificate)` (count-down `remaining_retries` with `break`-value +')
+
 
 # ---- the independent refactorings of one property applied TOGETHER (interactions between rewritten helpers)
 def _combos():
     by = {}
     for b in list(BENIGN):
-        if 'patch' in b and b['id'].startswith(('rf-', 'rf3-', 'rf4-')):
+        if 'patch' in b and b['id'].startswith(('rf-', 'rf3-', 'rf4-', 'rf5-')):
             by.setdefault(b['prop'], []).append(b['patch'])
     for prop, ps in sorted(by.items()):
         if len(ps) >= 2:
